@@ -180,6 +180,8 @@ func runC01(r *Run) {
 	}
 	// servers that do not know the newer monitor methods
 	c01Fallback(r, nHist/4)
+	// a monitor reply and the notification behind it processed at the same instant
+	c01Simultaneous(r, nHist*10)
 	for h := 0; h < nHist; h++ {
 		ts := genTxnSchema(r.Rng, h%2 == 0)
 		nT := 4 + r.Rng.Intn(7)
@@ -607,6 +609,18 @@ func c01Compare(r *Run, rig *Rig, clients map[int]*monClient, cs *c01Case, ti in
 		if got != want {
 			report("mirror", diffLines(got, want), "cache = database on monitored tables/columns",
 				fmt.Sprintf("%s the cache of client %d differs from the database", when, id), "")
+			return false
+		}
+		// the indexes of the cache (lookups by index values go through them) say what its rows say
+		var whole []string
+		for _, t := range tables {
+			if mc.cols[t] == nil {
+				whole = append(whole, t)
+			}
+		}
+		if why := cacheIndexesConsistent(mc.c, rig.ts.Spec, whole); why != "" {
+			report("mirror", why, "the cache's indexes hold its rows and nothing else",
+				fmt.Sprintf("%s the indexes of the cache of client %d do not match its rows", when, id), "")
 			return false
 		}
 		// the protocol model, driven by the same actions
